@@ -134,6 +134,25 @@ def optionsVerdict (steps goAll : String) : String :=
     else "ok"
   | _ => if (goAll.splitOn "X~").length > 1 then "skip:error" else "skip:shape"
 
+/-- C03: op(ρ(text)) = ρ(op(text)), ρ applied cluster for cluster; counts invariant -/
+def relVerdict (rho steps goAll : String) : String :=
+  let table : List (Tok × Tok) := (rho.splitOn "/").filterMap fun p =>
+    match p.splitOn ">" with
+    | [a, b] => do pure (← parseText a, ← parseText b)
+    | _ => none
+  let applyRho (t : List Int) : List Int :=
+    ((toks t).map fun c => match table.find? (·.1 == c) with | some (_, d) => d | none => c).flatten
+  let gs := (goAll.splitOn ";").map parseObs
+  let _ := steps
+  match gs with
+  | [_, .ed t1 _ s1 _, .int c1, .int l1, _, .ed t2 _ s2 _, .int c2, .int l2] =>
+    if applyRho t1 != t2 then s!"fail:C03 op(rho(text)) differs from rho(op(text)); rho(op(text)) = {showText (applyRho t1)}"
+    else if c1 != c2 then "fail:C03 CharCount not invariant under cluster substitution"
+    else if l1 != l2 then "fail:C03 LineCount not invariant under cluster substitution"
+    else if s1 != s2 then "fail:C03 sub-editor status differs"
+    else "ok"
+  | _ => if (goAll.splitOn "X~").length > 1 then "fail:C18 operation failed" else "skip:shape"
+
 def withDefaultsVerdict (go : String) : String :=
   match go.splitOn ";" with
   | [a, b] =>
